@@ -1,5 +1,14 @@
 package main
 
+import (
+	"fmt"
+	"go/token"
+	"go/types"
+	"strings"
+
+	"golang.org/x/tools/go/ssa"
+)
+
 // cross-property registrations that need every registry entry to exist (init order follows file names)
 
 func init() {
@@ -15,4 +24,83 @@ func init() {
 func init() {
 	registry["C04"].Meta.Rules["C04.14"] = registry["C03"].Meta.Rules["C03.1"] + " (shared with C03.1: a second object accepted under an existing name makes operations on one of them show up under the other)"
 	registry["C04"].Rules = append(registry["C04"].Rules, func(c *Ctx, r *Result) { aliasRule(c, r, "C03", ruleC03, "C03.1", "C04.14") })
+}
+
+// ---- an unsigned difference does not wrap (C10.13 and, on the owning code, C04.15 / C13.12) ----
+//
+// a - b in an unsigned type is a huge number when b > a. On the writing side differences are sizes and distances that end up in
+// Allocate, in slice bounds and in loop bounds. Every SUB of unsigned type with a non-constant subtrahend is proven non-negative
+// from the dominating tests and the ranges of its operands; the ones that are not decided are frozen per function
+// (baselines/usub.json) and only growth is reported.
+func unsignedSubRule(c *Ctx, r *Result, rule string, scope func(string) bool) {
+	readers := c.readerSet(r)
+	per := map[string][]undecidedItem{}
+	n := 0
+	for _, fn := range c.LibFuncs() {
+		if readers[fn] || fn.Blocks == nil {
+			continue
+		}
+		pk := shortPkg(fnPkgPath(fn))
+		if pk != "hdf5" && pk != "core" && pk != "structures" && pk != "writer" {
+			continue
+		}
+		if scope != nil && !scope(c.Name(fn)) {
+			continue
+		}
+		var fb *FB
+		instrs(fn, func(in ssa.Instruction) {
+			bo, ok := in.(*ssa.BinOp)
+			if !ok || bo.Op != token.SUB {
+				return
+			}
+			bt, ok := bo.Type().Underlying().(*types.Basic)
+			if !ok || bt.Info()&types.IsUnsigned == 0 {
+				return
+			}
+			if _, isK := bo.Y.(*ssa.Const); isK {
+				if _, isK2 := bo.X.(*ssa.Const); isK2 {
+					return
+				}
+			}
+			if fb == nil {
+				fb = c.FB(fn)
+			}
+			n++
+			if fb.ProveGE0At(fb.lin(bo.X).add(fb.lin(bo.Y), -1), bo) {
+				r.Hold(rule, c.Name(fn)+"#unsigned-difference", c.InstrPos(bo), "minuend >= subtrahend by the dominating tests")
+				return
+			}
+			per[c.Name(fn)] = append(per[c.Name(fn)], undecidedItem{c.InstrPos(bo), "the unsigned difference " + fb.linString(fb.lin(bo.X)) + " - (" + fb.linString(fb.lin(bo.Y)) + ") is not shown to be >= 0"})
+		})
+	}
+	if (scope == nil && n < 30) || n < 1 {
+		r.Shortfall(c, rule, fmt.Sprintf("%s: only %d unsigned subtractions examined on the writing side", rule, n))
+	}
+	baselineReadOnly = scope != nil
+	r.ApplyBaselineFile(verifDirGlobal, "usub", rule, "possibly-wrapping-unsigned-difference", per)
+	baselineReadOnly = false
+}
+
+func init() {
+	txt := "an unsigned difference does not wrap: on the writing side every subtraction in an unsigned type is proven non-negative from the dominating tests, or frozen per function with only growth reported (if end-of-file != header end instead of <, the distance header end - end-of-file wraps for a dataset that is not the last object, Allocate moves the allocator back, and the dense storage is written over the objects behind the header)"
+	registry["C10"].Meta.Rules["C10.13"] = txt
+	registry["C10"].Rules = append(registry["C10"].Rules, func(c *Ctx, r *Result) { unsignedSubRule(c, r, "C10.13", nil) })
+	pre := func(prefixes ...string) func(string) bool {
+		return func(n string) bool {
+			for _, p := range prefixes {
+				if strings.HasPrefix(n, p) {
+					return true
+				}
+			}
+			return false
+		}
+	}
+	registry["C04"].Meta.Rules["C04.15"] = txt + " (C10.13 on the allocator and the functions that compute addresses)"
+	registry["C04"].Rules = append(registry["C04"].Rules, func(c *Ctx, r *Result) {
+		unsignedSubRule(c, r, "C04.15", pre("writer.Allocator.", "writer.FileWriter.", "hdf5.transitionToDenseAttributes", "hdf5.createRootGroupStructure", "hdf5.FileWriter.", "hdf5.globalHeapWriter."))
+	})
+	registry["C13"].Meta.Rules["C13.12"] = txt + " (C10.13 on the chunk writer, the coordinator and Resize)"
+	registry["C13"].Rules = append(registry["C13"].Rules, func(c *Ctx, r *Result) {
+		unsignedSubRule(c, r, "C13.12", pre("hdf5.DatasetWriter.writeChunk", "hdf5.DatasetWriter.Resize", "hdf5.expandEdgeChunk", "writer.ChunkCoordinator.", "writer.NewChunkCoordinator", "structures.ChunkBTree"))
+	})
 }
